@@ -84,6 +84,17 @@ def run(ctx):
         while len(xs) < ln:
             acc = rng.uniform(0.1, 0.95)
             xs += [1.0 if rng.random() < acc else 0.0 for _ in range(rng.randint(20, 150))]
+        if i % 4 == 3:
+            # the two labels in DIFFERENT containers (a list next to a scalar, a 1x1 array next to a nested list, one-row slices of two columns, ...):
+            # ADWINAccuracy is ADWIN on the indicator "the two labels are equal", whatever they arrive in
+            from .c16 import encodings
+            import random as _r
+            name = ["1x1 array vs scalar", "scalar vs nested list", "1x1 frame vs 1-d array", "series slices with their own row labels", "lists", "int vs float"][(i // 4) % 6]
+            enc = encodings(_r.Random(rng.randrange(10 ** 6)))[name]
+            t = D.run(p, [("update", x) for x in xs[:ln]], accuracy=True, enc=lambda x, tt, enc=enc: enc(int(1 - x), tt))
+            t["encname"] = name
+            traces.append(t)
+            continue
         traces.append(D.run(p, [("update", x) for x in xs[:ln]], accuracy=True))
         if i % 4 == 0:
             # the same 0/1 indicator stream given to ADWIN itself, as booleans (`det.update(y_true == y_pred)`), ints or floats
